@@ -3,6 +3,7 @@
 From WI Require Import Lib.Base Lib.Info Lib.Strings Model.Base64 Model.Dispatch Model.Render Model.Routes.
 From WI Require Import Model.Pem.
 From WI Require Proofs.Base64 Proofs.Dispatch Proofs.Pem.
+From WI Require Model.Jwt Proofs.Jwt.
 From Coq Require Import ZifyN ZifyNat ZifyBool.
 Open Scope N_scope.
 
@@ -344,9 +345,10 @@ Qed.
 Lemma cls_2_6 : cls 2 = cX /\ cls 6 = cX.
 Proof. split; vm_compute; reflexivity. Qed.
 
-Lemma not_text_of_byte : forall d c, In c d -> cls c = cX -> not_text d = true.
+Lemma not_text_of_byte : forall d c, In c d -> cls c = cX -> c <> 46 -> not_text d = true.
 Proof.
-  intros d c Hin Hc. unfold not_text. apply existsb_exists. exists c. split; [assumption|]. rewrite Hc. apply N.eqb_refl.
+  intros d c Hin Hc Hn. unfold not_text. apply existsb_exists. exists c. split; [assumption|].
+  rewrite Hc, N.eqb_refl. cbn [andb]. apply negb_true_iff. now apply N.eqb_neq.
 Qed.
 
 (* every accepted object of kinds 1..6 starts with the SEQUENCE tag and contains a tag byte
@@ -360,7 +362,7 @@ Proof.
   destruct (parse_fields (req s1 r0) inner) eqn:Ef; [|discriminate].
   destruct (seq_inner_bytes d inner Hb Ei) as [Hs Hin]. split; [assumption|].
   pose proof (first_field_byte_in s1 r0 inner b (bytes_ok_sub d inner Hb Hin) Hr Ef) as H2.
-  rewrite Hu in H2. cbn in H2. apply (not_text_of_byte d 2); [now apply Hin|apply cls_2_6].
+  rewrite Hu in H2. cbn in H2. apply (not_text_of_byte d 2); [now apply Hin|apply cls_2_6|discriminate].
 Qed.
 
 Lemma pkix_shape : forall d, bytes_ok d = true -> accepts s_pkix d = true ->
@@ -382,7 +384,7 @@ Proof.
   assert (Hsub : forall x, In x (content inner) -> In x inner).
   { intros x Hx. rewrite El. right. now apply Hc. }
   pose proof (first_field_byte_in SOid _ (content inner) b0 (bytes_ok_sub inner _ Hbi Hsub) eq_refl F2) as H6.
-  cbn in H6. apply (not_text_of_byte d 6); [now apply Hin, Hsub|apply cls_2_6].
+  cbn in H6. apply (not_text_of_byte d 6); [now apply Hin, Hsub|apply cls_2_6|discriminate].
 Qed.
 
 Lemma key_shape : forall k s d, schema_of k = Some s -> bytes_ok d = true -> accepts s d = true ->
@@ -762,6 +764,7 @@ Proof.
   intros d H. unfold decode_any, decode_any_gen.
   rewrite Proofs.Base64.which_cls_spec, Proofs.Base64.which_with_none; [reflexivity|].
   unfold not_text in H. unfold Proofs.Base64.has. apply existsb_exists in H as [c [Hin Hc]].
+  apply andb_true_iff in Hc as [Hc _].
   apply existsb_exists. exists c. split; [assumption|]. now rewrite <- Proofs.Base64.cls_is_spec.
 Qed.
 
@@ -875,6 +878,92 @@ Lemma oracle_says_no : forall so data, uuid_oracle_ok so -> uuid_possible data =
   so (bs "IsUUID") data = false.
 Proof.
   intros so data Ho Hp. destruct (so (bs "IsUUID") data) eqn:E; [|reflexivity].
+  apply Ho in E. congruence.
+Qed.
+
+(* ====================================================================== *)
+(* D3. neither presentation can be a JWT                                   *)
+(* ====================================================================== *)
+
+Lemma split_on_dot_eq : forall s, split_on_dot s = Model.Jwt.split_dot s.
+Proof. induction s as [|c s IH]; [reflexivity|]. cbn [split_on_dot Model.Jwt.split_dot]. now rewrite IH. Qed.
+
+(* the model of ParseJWT/IsJWT of C18 satisfies the necessary condition, whatever encoding/json answers *)
+Lemma is_jwt_possible : forall J s, Model.Jwt.is_jwt J s = true -> jwt_possible s = true.
+Proof.
+  intros J s H. unfold Model.Jwt.is_jwt, Model.Jwt.parse_jwt, Model.Jwt.parse_jwt_gen in H.
+  unfold jwt_possible. rewrite split_on_dot_eq.
+  destruct (Model.Jwt.split_dot s) as [|h [|p [|g [|x r]]]]; try discriminate.
+  destruct (decode_any h) as [hb| |]; cbn [bind is_ok] in *; try discriminate.
+  destruct (Model.Jwt.unmarshal_map true (J hb)); cbn [bind is_ok] in *; try discriminate.
+  destruct (decode_any p) as [pb| |]; cbn [bind is_ok] in *; try discriminate.
+  destruct (Model.Jwt.unmarshal_map true (J pb)); cbn [bind is_ok] in *; try discriminate.
+  destruct (decode_any g) as [gb| |]; cbn [bind is_ok] in *; try discriminate. reflexivity.
+Qed.
+
+Definition no_dot_c (c : N) : bool := negb (c =? 46).
+
+Lemma no_dot_not_jwt : forall s, forallb no_dot_c s = true -> jwt_possible s = false.
+Proof.
+  intros s H. unfold jwt_possible. rewrite split_on_dot_eq.
+  rewrite (Proofs.Jwt.split_dot_nodot s H). reflexivity.
+Qed.
+
+(* base64 text in any alphabet, wrapped or not, contains no '.' *)
+Theorem b64_text_not_jwt : forall e w crlf trail d, bytes_ok d = true ->
+  jwt_possible (b64_text e w crlf trail d) = false.
+Proof.
+  intros e w crlf trail d Hb. apply no_dot_not_jwt. unfold b64_text. rewrite forallb_app.
+  rewrite Proofs.Pem.wrap_forall; try reflexivity.
+  - destruct trail; [destruct crlf|]; reflexivity.
+  - unfold encode. apply (Proofs.Pem.encode_core_forall no_dot_c (enc_url e) (enc_padded e)) with (n := S (length d));
+      try reflexivity; [|lia|assumption].
+    intros v Hv.
+    assert (H : forall u, forallb (fun v => no_dot_c (b64char u v)) (Proofs.Base64.range 64) = true)
+      by (intros [|]; vm_compute; reflexivity).
+    exact (Proofs.Base64.forall_range (fun v => no_dot_c (b64char (enc_url e) v)) 64 (H (enc_url e)) v Hv).
+Qed.
+
+Lemma decode_ok_chars : forall s, is_ok (decode_any s) = true -> forall c, In c s -> cls c <> cX.
+Proof.
+  intros s H c Hin Hc. unfold decode_any, decode_any_gen in H.
+  rewrite Proofs.Base64.which_cls_spec, Proofs.Base64.which_with_none in H; [discriminate|].
+  unfold Proofs.Base64.has. apply existsb_exists. exists c. split; [assumption|].
+  rewrite <- Proofs.Base64.cls_is_spec, Hc. reflexivity.
+Qed.
+
+(* every byte of a possible JWT is '.' or a base64 character *)
+Lemma jwt_possible_bytes : forall s, jwt_possible s = true -> forall c, In c s -> c = 46 \/ cls c <> cX.
+Proof.
+  intros s H c Hin. unfold jwt_possible in H. rewrite split_on_dot_eq in H.
+  destruct (Model.Jwt.split_dot s) as [|h [|p [|g [|x r]]]] eqn:E; try discriminate.
+  apply andb_true_iff in H as [H Hg]. apply andb_true_iff in H as [Hh Hp].
+  apply Proofs.Jwt.split_dot_three in E as (-> & _).
+  apply in_app_or in Hin as [Hin|[Hin|Hin]].
+  - right. exact (decode_ok_chars h Hh c Hin).
+  - left. symmetry. exact Hin.
+  - apply in_app_or in Hin as [Hin|[Hin|Hin]].
+    + right. exact (decode_ok_chars p Hp c Hin).
+    + left. symmetry. exact Hin.
+    + right. exact (decode_ok_chars g Hg c Hin).
+Qed.
+
+(* raw DER of a well-formed object contains a byte that is neither '.' nor a base64 character *)
+Lemma not_text_not_jwt : forall d, not_text d = true -> jwt_possible d = false.
+Proof.
+  intros d H. destruct (jwt_possible d) eqn:E; [|reflexivity]. exfalso.
+  unfold not_text in H. apply existsb_exists in H as [c [Hin Hc]].
+  apply andb_true_iff in Hc as [Hx Hn]. apply N.eqb_eq in Hx. apply negb_true_iff, N.eqb_neq in Hn.
+  destruct (jwt_possible_bytes d E c Hin); contradiction.
+Qed.
+
+Theorem der_not_jwt : forall k d, der_of_kind k d = true -> jwt_possible d = false.
+Proof. intros k d H. apply not_text_not_jwt. apply der_of_kind_parts in H. tauto. Qed.
+
+Lemma jwt_oracle_says_no : forall so data, jwt_oracle_ok so -> jwt_possible data = false ->
+  so (bs "IsJWT") data = false.
+Proof.
+  intros so data Ho Hp. destruct (so (bs "IsJWT") data) eqn:E; [|reflexivity].
   apply Ho in E. congruence.
 Qed.
 
@@ -1001,22 +1090,25 @@ Section Dispatching.
   Definition head_candidates (data : bytes) : list bytes :=
     (if is_b64_asn1 data then [bs "Base64ASN1File"] else []) ++ (if is_asn1 data then [bs "ASN1File"] else []).
 
-  (* the candidate list for a neutral name and content that starts with '0' or 'M' and is no UUID *)
+  (* the candidate list for a neutral name and content that starts with '0' or 'M' and is
+     neither a UUID nor a JWT *)
   Lemma candidates_shape : forall t name c data,
     routes_table_ok t = true -> reserved_in t name = false -> (c = 48 \/ c = 77) ->
     sniff_other (bs "IsUUID") (c :: data) = false ->
+    sniff_other (bs "IsJWT") (c :: data) = false ->
     exists l, candidates_in sniff' t name (c :: data) = Ok (head_candidates (c :: data) ++ l).
   Proof.
-    intros t name c data Hok Hr Hc Hu. unfold routes_table_ok in Hok.
+    intros t name c data Hok Hr Hc Hu Hj. unfold routes_table_ok in Hok.
     apply andb_true_iff in Hok as [Hok Hrows]. apply andb_true_iff in Hok as [He Hm].
     fold (patterns_exact t) in He.
     destruct (drop_while_split row no_sniffer t) as [pre [Ht Hpre]].
-    destruct (drop_while no_sniffer t) as [|r1 [|r2 [|r3 post]]]; try discriminate.
-    apply andb_true_iff in Hrows as [Hrows H3]. apply andb_true_iff in Hrows as [H1 H2].
-    apply sniffer_row_matches in H1 as (S1 & _ & M1), H2 as (S2 & P2 & M2), H3 as (S3 & P3 & M3).
+    destruct (drop_while no_sniffer t) as [|r1 [|r2 [|r3 [|r4 post]]]]; try discriminate.
+    apply andb_true_iff in Hrows as [Hrows H4]. apply andb_true_iff in Hrows as [Hrows H3].
+    apply andb_true_iff in Hrows as [H1 H2].
+    apply sniffer_row_matches in H1 as (S1 & _ & M1), H2 as (S2 & _ & M2), H3 as (S3 & P3 & M3), H4 as (S4 & P4 & M4).
     assert (Hincl : incl pre t) by (rewrite Ht; apply incl_appl, incl_refl).
     assert (Hpost : incl post t).
-    { rewrite Ht. apply incl_appr. do 3 apply incl_tl. apply incl_refl. }
+    { rewrite Ht. apply incl_appr. do 4 apply incl_tl. apply incl_refl. }
     assert (Hmag : forallb (fun r => forallb (magic_avoids c) (r_magics r)) pre = true).
     { apply forallb_forall. intros r Hin. rewrite forallb_forall in Hm. specialize (Hm r (Hincl r Hin)).
       apply andb_true_iff in Hm as [Hm1 Hm2]. destruct Hc; subst c; assumption. }
@@ -1024,12 +1116,14 @@ Section Dispatching.
     destruct (Proofs.Dispatch.candidates_total sniff' t post name (c :: data) (exact_no_wildcards t He) Hpost) as [l Hl].
     exists l. rewrite Ht.
     erewrite candidates_app; [|exact Hq|]; [reflexivity|].
-    cbn [candidates_in]. rewrite M1, M2, M3, Hl.
-    rewrite (smells_like_named r1 _ _ S1), (smells_like_named r2 _ _ S2), (smells_like_named r3 _ _ S3) by discriminate.
+    cbn [candidates_in]. rewrite M1, M2, M3, M4, Hl.
+    rewrite (smells_like_named r1 _ _ S1), (smells_like_named r2 _ _ S2),
+            (smells_like_named r3 _ _ S3), (smells_like_named r4 _ _ S4) by discriminate.
     change (sniff' (bs "IsUUID") (c :: data)) with (sniff_other (bs "IsUUID") (c :: data)).
+    change (sniff' (bs "IsJWT") (c :: data)) with (sniff_other (bs "IsJWT") (c :: data)).
     change (sniff' (bs "IsBase64ASN1") (c :: data)) with (is_b64_asn1 (c :: data)).
     change (sniff' (bs "IsASN1") (c :: data)) with (is_asn1 (c :: data)).
-    rewrite Hu, P2, P3. unfold head_candidates.
+    rewrite Hu, Hj, P3, P4. unfold head_candidates.
     destruct (is_b64_asn1 (c :: data)), (is_asn1 (c :: data)); reflexivity.
   Qed.
 
@@ -1052,16 +1146,16 @@ Section Dispatching.
   (* raw DER of a well-formed object, under a neutral name: the ASN1File route *)
   Theorem inspect_der : forall t name k d, routes_table_ok t = true -> reserved_in t name = false ->
     (k <= 6)%nat -> der_of_kind k d = true -> cert_oracle_ok L k d = true ->
-    sniff_other (bs "IsUUID") d = false ->
+    sniff_other (bs "IsUUID") d = false -> sniff_other (bs "IsJWT") d = false ->
     inspect_in_table L pem_blocks sniff_other parse_other t name d = asn1_file L d.
   Proof.
-    intros t name k d Hok Hr Hk Hd Hc Hu.
+    intros t name k d Hok Hr Hk Hd Hc Hu Hj.
     destruct (asn1_file_ok k d Hk Hd Hc) as [i Hi]. rewrite Hi.
     apply der_of_kind_parts in Hd as (Hasn & Hseq & Hnt & _ & _).
     destruct d as [|c d]; [discriminate|]. unfold starts_seq in Hseq.
     assert (c = 48). { destruct c as [|p]; [discriminate|]. do 6 (destruct p; try discriminate). reflexivity. }
     subst c.
-    destruct (candidates_shape t name 48 d Hok Hr (or_introl eq_refl) Hu) as [l Hl].
+    destruct (candidates_shape t name 48 d Hok Hr (or_introl eq_refl) Hu Hj) as [l Hl].
     unfold head_candidates in Hl. unfold is_b64_asn1 in Hl at 1.
     rewrite (not_text_not_b64 _ Hnt), Hasn in Hl. cbn [app] in Hl.
     eapply inspect_head; [exact Hl|]. exact Hi.
@@ -1071,9 +1165,10 @@ Section Dispatching.
   Theorem inspect_b64 : forall t name k d e w crlf trail, routes_table_ok t = true -> reserved_in t name = false ->
     (k <= 6)%nat -> der_of_kind k d = true -> cert_oracle_ok L k d = true ->
     sniff_other (bs "IsUUID") (b64_text e w crlf trail d) = false ->
+    sniff_other (bs "IsJWT") (b64_text e w crlf trail d) = false ->
     inspect_in_table L pem_blocks sniff_other parse_other t name (b64_text e w crlf trail d) = asn1_file L d.
   Proof.
-    intros t name k d e w crlf trail Hok Hr Hk Hd Hc Hu.
+    intros t name k d e w crlf trail Hok Hr Hk Hd Hc Hu Hj.
     destruct (asn1_file_ok k d Hk Hd Hc) as [i Hi]. rewrite Hi.
     apply der_of_kind_parts in Hd as (Hasn & Hseq & _ & Hb & _).
     destruct d as [|c d]; [discriminate|]. unfold starts_seq in Hseq.
@@ -1082,7 +1177,7 @@ Section Dispatching.
     destruct (b64_text_head e w crlf trail d) as [tl Htl].
     assert (Hdec := b64_text_decodes e w crlf trail (48 :: d) Hb).
     rewrite Htl in *.
-    destruct (candidates_shape t name 77 tl Hok Hr (or_intror eq_refl) Hu) as [l Hl].
+    destruct (candidates_shape t name 77 tl Hok Hr (or_intror eq_refl) Hu Hj) as [l Hl].
     unfold head_candidates in Hl. unfold is_b64_asn1 in Hl at 1. rewrite Hdec, Hasn in Hl. cbn [app] in Hl.
     eapply inspect_head; [exact Hl|].
     change (parse' (bs "Base64ASN1File") (77 :: tl)) with (b64_file L (77 :: tl)).
@@ -1461,15 +1556,15 @@ Section Combined.
   Theorem b64_eq_der : forall n1 n2 k d e w crlf trail, (k <= 6)%nat ->
     der_of_kind k d = true -> cert_oracle_ok L k d = true -> (34 <= length d)%nat ->
     reserved_in table n1 = false -> reserved_in table n2 = false ->
-    uuid_oracle_ok sniff_other ->
+    uuid_oracle_ok sniff_other -> jwt_oracle_ok sniff_other ->
     inspect' n1 (b64_text e w crlf trail d) = inspect' n2 d.
   Proof.
-    intros n1 n2 k d e w crlf trail Hk Hd Hc Hl H1 H2 Ho. unfold inspect_file.
+    intros n1 n2 k d e w crlf trail Hk Hd Hc Hl H1 H2 Ho Hj. unfold inspect_file.
     assert (Hb : bytes_ok d = true) by (apply der_of_kind_parts in Hd; tauto).
     rewrite (inspect_b64 L pem_blocks sniff_other parse_other table n1 k d e w crlf trail)
-      by auto using routes_table_ok_now, oracle_says_no, b64_text_not_uuid.
+      by auto using routes_table_ok_now, oracle_says_no, b64_text_not_uuid, jwt_oracle_says_no, b64_text_not_jwt.
     rewrite (inspect_der L pem_blocks sniff_other parse_other table n2 k d)
-      by eauto using routes_table_ok_now, oracle_says_no, der_not_uuid.
+      by eauto using routes_table_ok_now, oracle_says_no, der_not_uuid, jwt_oracle_says_no, der_not_jwt.
     reflexivity.
   Qed.
 
@@ -1477,13 +1572,13 @@ Section Combined.
      (the generic dump is used only if that description is literally "unknown ASN.1 data") *)
   Theorem der_described_by_kind : forall n k d, (k <= 6)%nat ->
     der_of_kind k d = true -> cert_oracle_ok L k d = true ->
-    reserved_in table n = false -> uuid_oracle_ok sniff_other ->
+    reserved_in table n = false -> uuid_oracle_ok sniff_other -> jwt_oracle_ok sniff_other ->
     forall i, parse_kind L k d = Ok i -> i_desc i <> i_desc unknown_asn1 ->
     inspect' n d = Ok i.
   Proof.
-    intros n k d Hk Hd Hc Hr Ho i Hi Hn. unfold inspect_file.
+    intros n k d Hk Hd Hc Hr Ho Hj i Hi Hn. unfold inspect_file.
     rewrite (inspect_der L pem_blocks sniff_other parse_other table n k d)
-      by eauto using routes_table_ok_now, oracle_says_no, der_not_uuid.
+      by eauto using routes_table_ok_now, oracle_says_no, der_not_uuid, jwt_oracle_says_no, der_not_jwt.
     unfold asn1_file. rewrite (trial_order_thm L k d Hk Hd Hc), Hi.
     destruct (bytes_eqb (i_desc i) (i_desc unknown_asn1)) eqn:E; [|reflexivity].
     apply bytes_eqb_eq in E. contradiction.
